@@ -141,7 +141,8 @@ PROPS = {
                 "literal on its written side, x/0 and x%0 = NaN, comparison = 1/0, set operators by label set with left values); "
                 "non-trivial = both sides non-empty with a proper non-empty overlap at some step, or a non-commutative operator "
                 "with the literal on the left; distinct by case hash",
-        "assumptions": ["the bool modifier and on/ignoring/group_* are not generated (outside the statement)"],
+        "assumptions": ["the bool modifier and on/ignoring/group_* are not generated (outside the statement)",
+                        "comparison operators and % are only generated over integer-valued sides (counts, byte counts, their sum/max/count): they turn a last-bit floating-point difference of an order-dependent sum into 0/1"],
         "quick": [rapid("TestC12", 1500)],
         "thorough": [rapid("TestC12", 6000, shards=16, timeout=2400)],
     },
@@ -204,6 +205,25 @@ PROPS = {
         "assumptions": ["64-bit hash collisions between unrelated label sets are not reachable by search; only structural collisions are"],
         "quick": [rapid("TestC10", 800)],
         "thorough": [rapid("TestC10", 3000, shards=16, timeout=2400)],
+    },
+    "C17": {
+        "rule": "cases: queries from three sources - grammar-derived over the whole grammar (40%), their token-level mutations "
+                "(delete/duplicate/swap/replace by a token of the token table/splice with another query, 40%), arbitrary bytes (10%) - "
+                "crossed with 0-8 records whose lines are hostile (5000-deep JSON, huge/odd numbers, lone surrogates, truncated "
+                "JSON, unterminated logfmt, 70KB lines, invalid UTF-8, broken escape sequences and addresses), arbitrary bytes, "
+                "structured or plain, with label values such as NaN, Inf, 1e400; instant or range parameters with a positive step "
+                "(<=1000 steps) and any limit; oracle: Engine.Eval inside recover() and under a 20s watchdog must return, with "
+                "an error or with a result whose type matches the expression kind; an unparsable query must not produce a "
+                "result; non-trivial = the query parsed and evaluation reached the storage over a non-empty record set, or a "
+                "mutated query that still parsed; distinct by case hash; thorough adds a coverage-guided native fuzz target "
+                "seeded with every query string of the repository's parser/lexer/engine tests",
+        "assumptions": [
+            "'terminates' is decided as 'returns within 20s' for cases that normally take microseconds",
+            "step 0 with start != end is outside the statement (well-formed parameters) and belongs to C16",
+            "template arguments are small (sprig's repeat/indent allocate what they are asked to)",
+        ],
+        "quick": [rapid("TestC17", 4000)],
+        "thorough": [rapid("TestC17", 15000, shards=16, timeout=2400), fuzz("FuzzC17", 180)],
     },
     "C19": {
         "rule": "cases: generated records with unique timestamps (some lines and label values are arbitrary bytes) x a prefix "
